@@ -1,4 +1,5 @@
 import GenjaxVerif.Lemmas.GFIUpdate
+import GenjaxVerif.Lemmas.GFIStaticReq
 import GenjaxVerif.Props.GFITest
 /-!
 # C06 — backward requests undo edits exactly
@@ -81,5 +82,21 @@ theorem C06_switch_backward_is_the_branchs (ds : DistSem) (ps : List Prog) (i : 
     simp only [bind_ok, pure_ok] at h2
     obtain ⟨r', h4, rfl⟩ := h2
     exact ⟨ba, r', by simpa [hch] using h4, rfl, rfl⟩
+
+/-- The backward request of a `StaticRequest` addresses every call the function made — in the order
+    of the calls, each under its own address — with that call's own backward request; the new trace
+    holds those calls' traces under the same addresses and the weight is the sum of their weights. -/
+theorem C06_static_request_backward (ds : DistSem) (b : Body) (k : KeyPath) (t : Trace) (req : List String → SubReq)
+    (a : Val) (ch : Bool) (r : Res) (h : staticRequest ds (.static b) k t req a ch = .ok r) :
+    ∃ calls : List (List String × Res), calls.map (·.1) = Body.addrs b ∧
+      r.bwd = (calls.map fun c => CMap.pre (c.1.map Comp.s) c.2.bwd).flatten ∧
+      r.w = (calls.map (·.2.w)).sum ∧
+      ∃ ret, r.tr = .static a ret (calls.map fun c => (c.1, c.2.tr)) := by
+  simp only [staticRequest, staticRun, bind_ok, pure_ok] at h
+  obtain ⟨env, _, olds, _, ⟨st, v⟩, h3, rfl⟩ := h
+  obtain ⟨calls, hc, hs, hw, hb⟩ := reqBody_calls ds req b _ olds env {} st v h3
+  refine ⟨calls, hc, by simpa using hb, by simpa using hw, v, ?_⟩
+  simp at hs
+  simp [hs]
 
 end GenjaxVerif.GFI
